@@ -39,6 +39,10 @@ class install(repo_ops.install):
     def add_data(self, domain):
         # error checking?
         dirpath = self.tmp_write_path
+        if os.path.lexists(dirpath):
+            # leftover of an interrupted run; its files must not leak into
+            # this entry
+            shutil.rmtree(dirpath)
         ensure_dirs(dirpath, mode=0o755, minimal=True)
         update_mtime(self.repo.location)
         rewrite = self.repo._metadata_rewrites
